@@ -25,4 +25,7 @@ def run(F, tier):
     rep.sample({"K4_push_counts_over_paths": r.get("paths")})
     rep.sample({"K2_keep_list": rep.rules.get("K2", {}).get("keep_list")})
     accept.u6(rep, F, "tokeniser")
+    # what the splitting / lookup functions deliver: every push, insert, clear, retain and sort on the collections
+    # under construction, with the condition it happens under
+    accept.u7(rep, F, ("tokeniser", accept.FILTERS["tokeniser"], 4))
     return rep
